@@ -272,7 +272,8 @@ def gen_cli_unit(rng, nblocks, names):
         elif r < 0.96:
             push()
             n = rng.choice(names)
-            src.append(ind + 'for (int i_ = sizeof(%s); chk_g; )' % ident_decl_text(n))
+            # declared in the controlling expression: clause-1 may only declare objects (6.8.5p3)
+            src.append(ind + 'for (int i_ = 0; chk_g && sizeof(%s); )' % ident_decl_text(n))
             substmt(ind, depth)
             pop()
         else:
@@ -300,6 +301,13 @@ def gen_cli_unit(rng, nblocks, names):
         if re.search(r'^int chk_%d = ' % i, body, re.M):
             head = head.replace('int chk_%d;\n' % i, '')
     return head + body, ops, checks
+
+
+def gcc_accepts(ctx, src):
+    f = os.path.join(ctx.tmp, 'gccguard-%d.c' % (hash(src) & 0xffffffff))
+    open(f, 'w').write(src)
+    rc, out, err = vlib.run_limited(['gcc', '-std=c11', '-fsyntax-only', '-w', f], timeout=120)
+    return rc == 0
 
 
 def parse_data_ints(il):
@@ -365,9 +373,9 @@ def run(ctx):
             sizes = [(30, 4, 2, 1), (60, 4, 3, 1), (200, 8, 5, 1), (400, 32, 6, 7), (900, 64, 8, 97)]
             reps = 4 if not thorough else 40
             if thorough:
-                sizes += [(6000, 64, 11, 499), (12000, 32, 13, 0)]
+                sizes += [(1500, 64, 10, 499), (2000, 32, 11, 0)]     # the extracted list model is cubic: larger histories take tens of minutes
             for nops, cap, nbits, de in sizes:
-                for r in range(reps if nops < 5000 else 3):
+                for r in range(reps if nops < 1200 else 3):
                     pool = key_pool(rng, nbits if rng.random() < 0.7 else 0, max(8, nops // 3))
                     if rng.random() < 0.3:
                         pool += [bytes([rng.randrange(256) for _ in range(rng.randint(0, 300))]) for _ in range(10)]
@@ -376,7 +384,7 @@ def run(ctx):
 
             def one(lines):
                 rc1, real = runbin(hexe, lines)
-                rc2, model = runbin(oracle, lines, timeout=600)
+                rc2, model = runbin(oracle, lines, timeout=3600)
                 return lines, rc1, real, rc2, model
             for lines, rc1, real, rc2, model in vlib.parallel_map(one, plans):
                 stats['histories'] += 1
@@ -401,6 +409,8 @@ def run(ctx):
                     ctx.violation('map.c disagrees with the finite-map specification on an operation history (rc=%d): got %r want %r'
                                   % (r, project_spec(out)[-6:], spec_outputs(small)[-6:]),
                                   '\n'.join(small) + '\n', 'ops', key='map-history')
+                elif rc2 != 0:
+                    ctx.broken('correspondence', 'Map model oracle did not finish', 'status %d after %d outputs on a %d-op history' % (rc2, len(model), len(lines)))
                 elif real != model:
                     i = next((i for i, (a, b) in enumerate(zip(real, model)) if a != b), min(len(real), len(model)))
                     ctx.broken('correspondence', 'Map model vs map.c (slot-exact)',
@@ -438,7 +448,7 @@ def run(ctx):
         if oracle and os.path.exists(os.path.join(snap, 'cproc-qbe')):
             nunits = 12 if not thorough else 120
             names = [k.decode() for k in key_pool(rng, 5, 12, b'abcdefghijklmnopqrstuvwxyz')] + ['x', 'y', 'T', 's', 'aa', 'ab']
-            names = ['n_' + n for n in names]
+            names = list(dict.fromkeys('n_' + n for n in names))     # distinct: rng.sample at file scope must not repeat a name
             units = [gen_cli_unit(rng, rng.randint(2, 12), names) for _ in range(nunits)]
             # one big unit: many names, deep nesting
             big_names = ['id%d_%s' % (i, 'q' * (i % 60)) for i in range(3000 if not thorough else 50000)]
@@ -457,6 +467,11 @@ def run(ctx):
                 nontrivial.add(hash(src))
                 want_spec = [int(l.split(' ')[1]) for l in scope_spec(ops)]
                 want_model = [int(l.split(' ')[1]) if l.split(' ')[1].isdigit() else None for l in model]
+                if rc != 0 and not gcc_accepts(ctx, src):
+                    # guard of the generator itself: a unit gcc rejects too is the generator's fault, not cproc's
+                    stats['generator_rejects'] = stats.get('generator_rejects', 0) + 1
+                    ctx.log('generator produced a unit that gcc rejects as well (skipped): %s' % err[:200])
+                    continue
                 if rc != 0:
                     ctx.violation('valid generated unit rejected (rc=%d): %s' % (rc, err[:300]), src, 'c', key='cli-reject')
                     continue
